@@ -18,7 +18,11 @@ import (
 	"unicode/utf8"
 
 	"pgregory.net/rapid"
+
+	"verif/harness"
 )
+
+var certDir string
 
 // Octets is a byte string that serialises to JSON as a string in which every
 // octet is the code point of the same value (Latin-1), so that replay files and
@@ -203,7 +207,17 @@ func (s *stats) flush() {
 
 func TestMain(m *testing.M) {
 	flag.Parse()
+	// package-level SendMail / DialStartTLS use the system roots: make them
+	// trust the throw-away certificate (must happen before first use)
+	if dir, err := os.MkdirTemp("", "verif-ca-"); err == nil {
+		harness.ExportCertFile(dir)
+		defer os.RemoveAll(dir)
+		certDir = dir
+	}
 	code := m.Run()
+	if certDir != "" {
+		os.RemoveAll(certDir)
+	}
 	st.flush()
 	os.Exit(code)
 }
